@@ -1,12 +1,8 @@
-// ===== trusted: documented behaviour of Ordering::then_with and of Vec's lexicographic Ord (C12: the comparator of top_ixs)
-pub uninterp spec fn lex_cmp<T>(a: Seq<T>, b: Seq<T>) -> Ordering;
+// ===== trusted: documented behaviour of Ordering::then_with and of Vec's lexicographic Ord (C12: the comparator of top_ixs);
+// lex_cmp and rec_order are in store_contract.rs
 #[verifier::allow(undeclared_external_trait)]
 pub assume_specification<F: FnOnce() -> Ordering + core::marker::Destruct>[ Ordering::then_with ](o: Ordering, f: F) -> (r: Ordering)
     requires o == Ordering::Equal ==> f.requires(()),
     ensures o != Ordering::Equal ==> r == o, o == Ordering::Equal ==> f.ensures((), r);
 pub assume_specification<T: Ord, A: core::alloc::Allocator>[ <Vec<T, A> as Ord>::cmp ](a: &Vec<T, A>, b: &Vec<T, A>) -> (r: Ordering)
     ensures r == lex_cmp(a@, b@);
-// C12: the order of the empty-query ranking: higher rating first; at equal rating the normalised titles in lexicographic order
-pub open spec fn rec_order(a: &Record, b: &Record) -> Ordering {
-    if a.rating > b.rating { Ordering::Less } else if a.rating < b.rating { Ordering::Greater } else { lex_cmp(a.title.chars@, b.title.chars@) }
-}
